@@ -14,8 +14,50 @@ def driver(ctx, race=False):
     return getattr(ctx, key)
 
 
-def run_driver(ctx, cmd, what, timeout=900, env=None):
+class DriverCrashed(Exception):
+    """The driver process was killed by a panic / fatal error raised in the code under test (already reported as a
+    violation): the stage has no trace to validate."""
+
+
+_REPO_FN = re.compile(r"^(github\.com/Jigsaw-Code/outline-ss-server/\S.*)$")
+
+
+def crash_report(stderr_text):
+    """A Go crash (panic / fatal error) of the driver process whose goroutine trace has a frame of the repository:
+    returns {msg, where, text}; else None."""
+    m = re.search(r"^(panic: .*|fatal error: .*)$", stderr_text or "", re.M)
+    if not m:
+        return None
+    lines = stderr_text[m.start():].splitlines()
+    for i, ln in enumerate(lines[:-1]):
+        f = _REPO_FN.match(ln.strip())
+        if f:
+            loc = lines[i + 1].strip().split(" +0x")[0]
+            for d in ("/service/", "/net/", "/prometheus/", "/ipinfo/", "/cmd/"):
+                if d in loc:
+                    loc = loc[loc.rindex(d) + 1:]
+                    break
+            fn = f.group(1)[len("github.com/Jigsaw-Code/outline-ss-server/"):]
+            fn = fn[:fn.rindex("(")] if "(" in fn else fn
+            return {"msg": m.group(1)[:300], "where": "%s (%s)" % (loc, fn), "text": "\n".join(lines[:60])}
+    return None
+
+
+def report_crash(ctx, module, what, cmd, rc, err):
+    """The real code crashed the process under the driver's load: an observation about the code, not a harness failure."""
+    cr = crash_report(err)
+    if not cr:
+        return False
+    ctx.violation({"module": module, "kind": "process-crashed-in-service-code", "where": cr["where"]},
+                  "the code under test crashed the process during tcpauth %s: %s at %s" % (what, cr["msg"], cr["where"]),
+                  {"driver": "tcpauth " + what, "cmd": cmd[1:], "rc": rc, "crash": cr["text"]})
+    return True
+
+
+def run_driver(ctx, cmd, what, timeout=900, env=None, module="TcpAuth"):
     rc, out, err = vlib.run(cmd, env=env or vlib.goenv(), timeout=timeout)
+    if rc != 0 and report_crash(ctx, module, what, cmd, rc, err):
+        raise DriverCrashed(what)
     if rc != 0:
         raise vlib.Inconclusive("tcpauth %s failed (rc=%d): %s" % (what, rc, (err or out)[-2000:]))
     info = {}
@@ -93,6 +135,7 @@ CL_SUMMARY = {
                                                       "at any time during the call (not linearizable)",
     "unsound-attribution": "a connection was attributed to an ID that is not configured with the client's cipher and secret",
     "valid-key-refused": "a stream encrypted under a configured key was not authenticated",
+    "list-operation-crashed": "a SnapshotForClientIP / MarkUsedByClientIP / Update call panicked under concurrent use",
     "lookup-crashed": "the handler panicked during the key search of a client that holds a configured key (StreamServe "
                       "recovers, the connection is closed): the client is not authenticated",
     "effect-without-authentication": "a target was dialled / bytes were written / AddAuthenticated was reported for an "
@@ -156,12 +199,14 @@ TA_SUMMARY = {
     "invalid-opener-authenticated": "opening bytes valid under no configured key were authenticated",
     "unsound-attribution": "a connection was attributed to an ID not configured with the client's cipher and secret",
     "valid-fresh-handshake-refused": "a valid handshake with a never-seen salt was refused",
+    "handshake-crashed": "the code under test panicked while serving a connection (salt check / salt generation): the "
+                         "client is dropped without a recognisable fresh response salt",
 }
 C08_KINDS = {"reflected-handshake-authenticated", "reflected-handshake-not-classified-as-server-replay",
              "refused-handshake-had-effects", "refused-handshake-not-drained", "response-salt-not-fresh",
-             "response-salt-not-recognised", "bytes-written-to-unauthenticated-client"}
+             "response-salt-not-recognised", "bytes-written-to-unauthenticated-client", "handshake-crashed"}
 C01_KINDS = {"invalid-opener-authenticated", "unsound-attribution", "valid-fresh-handshake-refused",
-             "bytes-written-to-unauthenticated-client", "refused-handshake-had-effects"}
+             "bytes-written-to-unauthenticated-client", "refused-handshake-had-effects", "handshake-crashed"}
 
 
 def keys_module(keys):
